@@ -167,8 +167,23 @@ class Scenario:
     def apply(self, simu, cfg, op, live):
         """live: dict with 'model' (the live model) etc."""
         mesh = simu.mesh
-        if op in self.alt:
+        if op.endswith("_field"):
+            # a per-element parameter field owned by the caller: first assignment of a fresh array, afterwards the SAME
+            # array object is edited in place and assigned again (a legal way of updating a heterogeneous parameter)
+            name = op[:-6]
+            arr = live.get(op)
+            Ne = simu.mesh.Ne
+            if arr is None or arr.shape[0] != Ne:
+                arr = np.linspace(1.0, 1.6, Ne) * float(np.mean(self.params0[name]))
+                live[op] = arr
+            else:
+                arr *= 1.25
+            cfg["params"][name] = arr.copy()
+            self.set_param(live["model"], name, arr)
+        elif op in self.alt:
             cur = cfg["params"][op]
+            if isinstance(cur, np.ndarray):
+                cur = self.alt[op]
             new = self.alt[op] if cur == self.params0[op] else self.params0[op]
             cfg["params"][op] = new
             self.set_param(live["model"], op, new)
@@ -195,6 +210,10 @@ class Scenario:
             cfg["mesh"] = key
             cfg["coords"] = None
             cfg["meshkeys"].append(key)
+            for pname, pval in list(cfg["params"].items()):
+                if isinstance(pval, np.ndarray):
+                    cfg["params"][pname] = self.params0[pname]
+                    self.set_param(live["model"], pname, self.params0[pname])
             simu.mesh = self.replacement_mesh(key, live)
             # the mesh setter re-initialises conditions and solutions (documented in the setter): re-enter the conditions
             self.apply_bc(simu, cfg)
@@ -215,8 +234,14 @@ class Scenario:
         elif op == "setiter0":
             if not cfg["saved"]:
                 return
-            simu.Set_Iter(0)
             idx = cfg["saved"][0]
+            if cfg["meshkeys"][idx] != cfg["mesh"]:
+                # per-element parameter fields belong to the current mesh: back to scalars before switching mesh
+                for pname, pval in list(cfg["params"].items()):
+                    if isinstance(pval, np.ndarray):
+                        cfg["params"][pname] = self.params0[pname]
+                        self.set_param(live["model"], pname, self.params0[pname])
+            simu.Set_Iter(0)
             cfg["mesh"] = cfg["meshkeys"][idx]
             # conditions refer to node indices of the mesh they were entered on: re-enter them for the restored mesh
             self.apply_bc(simu, cfg)
@@ -241,7 +266,7 @@ class ElasticScn(Scenario):
     name = "elastic"
     params0 = {"E": 2.0, "v": 0.3, "thickness": 0.7, "planeStress": True}
     alt = {"E": 3.5, "v": 0.1, "thickness": 1.2, "planeStress": False}
-    model_ops = ["E", "v", "thickness", "planeStress"]
+    model_ops = ["E", "v", "thickness", "planeStress", "E_field"]
     result_names = ["Wdef", "Svm", "Exx"]
 
     def make_model(self, cfg):
@@ -498,7 +523,7 @@ def cases(tier, seed):
                 out.append({"kind": "history", "scn": name, "ops": list(seq), "regime": "end"})
     # one model shared by two simulations
     for name in ("elastic", "thermal", "elastic_trisot"):
-        mops = SCENARIOS[name]().model_ops
+        mops = [o for o in SCENARIOS[name]().model_ops if not o.endswith("_field")]
         for seq in itertools.product(mops, repeat=2):
             for pattern in ("AB", "BA", "A", "B"):
                 out.append({"kind": "shared", "scn": name, "ops": list(seq), "pattern": pattern})
